@@ -79,7 +79,9 @@ func (ms MsgServer) CreateBridge(ctx context.Context, req *types.MsgCreateBridge
 		return nil, err
 	}
 
-	// store the roles in their canonical spelling (see UpdateProposer)
+	// store the roles in their canonical spelling (see UpdateProposer), in a copy: the caller's
+	// message stays as it was sent
+	req = &types.MsgCreateBridge{Creator: req.Creator, Config: req.Config}
 	if req.Config.Proposer, err = ms.canonicalAddress(req.Config.Proposer); err != nil {
 		return nil, err
 	}
